@@ -132,7 +132,7 @@ static int Record(const vh::Args& args) {
 
 int main(int argc, char** argv) {
   { vh::Args args(argc, argv); if (args.has("record")) return vh::RunRecorder(args.get("trace"), args.get("out"), [&]() { return Record(args); }); }
-  vh::IsoOptions iso; iso.faultProperty = "C20"; iso.batch = 4000; iso.watchdogSeconds = 10;
+  vh::IsoOptions iso; iso.faultProperty = "C20"; iso.batch = 4000; iso.watchdogSeconds = 90;
   return vh::Main(argc, argv, [](const json& c, vh::Report& r) {
     if (c["kind"] == "str") StrCase(c, r); else RngCase(c, r);
     if (r.samples.size() < 3 && (r.cases % 9973) == 1) r.Sample(c);
